@@ -133,7 +133,7 @@ def run(ctx):
                 rest = [q for q in range(n) if q not in ts and (kind != "Match" or all(q != t + 1 for t in ts))]
                 pcs = rng.sample(rest, rng.randrange(0, min(2, len(rest)) + 1))
                 if rng.random() < 0.3:                         # a parametric gate addressing a qubit outside the circuit: as a control or as a target
-                    far = rng.choice([n, n + 1, 63, 64, 2**40])
+                    far = rng.choice([n, n + 1, 63, 64, 2**40] + ([2**64 - 1] if kind != "Match" else []))
                     if rng.random() < 0.6 or not ts: pcs = pcs + [far]
                     else: ts = ts[:-1] + [far]
                 gates.insert(rng.randrange(len(gates) + 1), {"g": "param", "kind": kind, "vals": [float2bits(rng.uniform(-3, 3)) for _ in range(3)], "ts": ts, "cs": pcs})
@@ -149,7 +149,7 @@ def run(ctx):
     pcases = []
     z, one = [float2bits(0.0), float2bits(0.0)], [float2bits(1.0), float2bits(0.0)]
     for n in (1, 2, 3, 5):
-        for far in (n, n + 1, 63, 64, 2**40):
+        for far in (n, n + 1, 63, 64, 2**40, 2**64 - 1):
             ops = [[q, rng.choice("XYZ")] for q in rng.sample(range(n), rng.randrange(0, n))] + [[far, rng.choice("XYZ")]]
             rng.shuffle(ops)
             for coef in (one, z, [float2bits(0.3), float2bits(-0.2)]):
